@@ -389,6 +389,7 @@ def run_c11(t, tier, res):
     emitted = {}
     total = 0
     lmax = -1
+    shared = Optimizer(max_length=4)          # PcfgGrammar keeps one Optimizer for the whole process
     for lvl in range(0, 19):
         try:
             c = ref.count(lvl)
@@ -397,7 +398,7 @@ def run_c11(t, tier, res):
         if total + c > 15000:
             break
         try:
-            got, done = drain(MarkovCracker(g, lvl, Optimizer(max_length=4)), c * 2 + 5, work=400000)
+            got, done = drain(MarkovCracker(g, lvl, shared), c * 2 + 5, work=400000)
         except WorkLimit:
             res.stats["levels_stopped_work_limit"] += 1
             break
